@@ -167,6 +167,7 @@ func defaultSeed(tier string) uint64 {
 
 // Main is the entry point of the simcheck driver.
 func Main(args []string) int {
+	InitRunDir()
 	if len(args) == 0 {
 		fmt.Fprintln(os.Stderr, "usage: simcheck run <id> <tier> | worker ... | replay <file> | list")
 		return 2
@@ -250,7 +251,7 @@ func workerMain(args []string) int {
 		enc.Encode(rep)
 		out.Flush()
 	}
-	os.RemoveAll(RunDirBase)
+	cleanupRunDir()
 	return 0
 }
 
@@ -280,7 +281,7 @@ func installStuckHandler(enc *json.Encoder, out *bufio.Writer) {
 		rep.Evals++
 		enc.Encode(rep)
 		out.Flush()
-		os.RemoveAll(RunDirBase)
+		cleanupRunDir()
 		os.Exit(4)
 	}
 }
@@ -358,7 +359,7 @@ func runUnit(c *CheckDef, tier string, seed uint64, i int) *UnitReport {
 		rep.Infra = fmt.Sprintf("watchdog: unit %d (seed %d) did not finish in %v", i, us, limit)
 		// the worker cannot continue safely (a World may still be installed)
 		json.NewEncoder(os.Stdout).Encode(rep)
-		os.RemoveAll(RunDirBase)
+		cleanupRunDir()
 		os.Exit(3)
 	}
 	return rep
@@ -655,12 +656,12 @@ func minimiseMain(args []string) int {
 	}
 	minimiseCheckpoint = args[2]
 	sim.StuckHandler = func(*sim.Sim, *sim.Task, string) {
-		os.RemoveAll(RunDirBase)
+		cleanupRunDir()
 		os.Exit(5) // a candidate hung: keep the checkpointed best
 	}
 	m := c.Minimise(v)
 	os.WriteFile(args[2], mustJSON(m), 0o644)
-	os.RemoveAll(RunDirBase)
+	cleanupRunDir()
 	return 0
 }
 
@@ -702,7 +703,7 @@ func replayMain(path string) int {
 	}
 	sim.StuckHandler = func(s *sim.Sim, t *sim.Task, stacks string) {
 		cls := "hang/" + strings.TrimPrefix(hangFrame(stacks), "panic/")
-		os.RemoveAll(RunDirBase)
+		cleanupRunDir()
 		if cls == rf.Class {
 			fmt.Printf("VIOLATION property=%s replay=%s\n  class: %s\n  task %s hangs inside sop again (%s)\n", rf.Check, path, cls, t.Name, hangFrames(stacks, 6))
 			os.Exit(1)
@@ -711,7 +712,7 @@ func replayMain(path string) int {
 		os.Exit(2)
 	}
 	vs := c.Replay(rf.Payload)
-	os.RemoveAll(RunDirBase)
+	cleanupRunDir()
 	for _, v := range vs {
 		if v.Class == rf.Class {
 			if rf.Hash != "" && v.Hash != "" && rf.Hash != v.Hash {
